@@ -108,6 +108,37 @@ def BOUNDED(tier, seed):
                 if not ok:
                     fails.append({'key': f'efficiency_{mode}', 'summary': f'BatchSage.{mode} N={N} n_inner={n_inner}: values {out} sum {sum(out.values())} '
                                   f'!= mean loss gap {target} (or per-feature averages differ)'})
+    # outputs with DIFFERENT label sets (sparse probability dicts): the baseline is the mean prediction over the union of the labels,
+    # a label missing from an output counting as 0
+    def sparse_model(x):
+        if not isinstance(x, dict):
+            return [sparse_model(z) for z in x]
+        v = Fraction(x['a']) + 2 * Fraction(x['b'])
+        return {'pos': v, 'big': Fraction(1)} if v > 0 else ({'neg': -v} if v < 0 else {'zero': Fraction(1), 'pos': Fraction(0)})
+
+    def sparse_loss(y, p):
+        return sum((Fraction(y) - v) ** 2 for v in p.values()) + Fraction(len(p), 4)
+    for mode in ('many', 'original'):
+        xs = [{'a': Fraction(1), 'b': Fraction(0), 'c': Fraction(2)}, {'a': Fraction(-2), 'b': Fraction(0), 'c': Fraction(1)},
+              {'a': Fraction(0), 'b': Fraction(0), 'c': Fraction(0)}, {'a': Fraction(3), 'b': Fraction(-1), 'c': Fraction(1)}]
+        ys = [1, 0, 2, -1]
+        st = BatchStorage(store_targets=True)
+        for x, y in zip(xs, ys):
+            st.update(x, y)
+        ex = BatchSage(sparse_model, names, sparse_loss, n_inner_samples=1, storage=st, imputer=MarginalImputer(sparse_model, 'joint', st))
+        evals += 1
+        distinct.add((mode, 'sparse_labels'))
+        try:
+            out = (ex.explain_many if mode == 'many' else ex.explain_many_original)(xs, ys, verbose=False)
+            preds = [sparse_model(x) for x in xs]
+            labels = set().union(*preds)
+            mp = {l: sum(p.get(l, 0) for p in preds) / len(preds) for l in labels}
+            target = sum(sparse_loss(y, mp) - sparse_loss(y, p) for y, p in zip(ys, preds)) / len(xs)
+            if not _close(sum(out.values()), target):
+                fails.append({'key': f'efficiency_{mode}', 'summary': f'BatchSage.{mode} with outputs of differing label sets: values sum to '
+                              f'{float(sum(out.values()))}, the mean loss gap against the mean prediction over all labels is {float(target)}'})
+        except Exception as ex_:   # noqa
+            fails.append({'key': f'efficiency_{mode}', 'summary': f'BatchSage.{mode} with outputs of differing label sets raised {ex_!r}'})
     # interval schedule
     for interval, length in ((1, 2), (2, 3), (3, 2)):
         cnt = {'n': 0}
